@@ -32,6 +32,8 @@ def gen_case(g, kind, Dx, Dy, Dk, R=1, Da=None):
             d["Sig0"] = g.spd(Dy)          # built with another noise covariance, then update_Sigma (lin.with_history)
         elif g.randint(0, 1) == 0:
             d["np_params"] = True; d["twice"] = True      # numpy parameters, every call made twice on the same object
+        else:
+            d["fctor"] = g.choice(["Lambda", "Sigma+Lambda"])   # the noise given by its precision (alone / together with Sigma)
         if kind == "lrbf":
             d.update(c=g.mat(Dk, Dx), l=[[(g.qpos() if Dx == 1 else Fr(g.randint(2, 6), 2)) for _ in range(Dx)] for _ in range(Dk)])
         else:
@@ -109,10 +111,16 @@ def build(d):
     # parameters handed over as NUMPY arrays in some cases (accepted by the library; an in-place numpy operation on them would
     # leak into the object or into the caller's arrays, which a jax array can never show)
     arr = (lambda x: gtlib.fl(x)) if d.get("np_params") else jarr
+    fctor = d.get("fctor", "Sigma")
+    noise = {}
+    if fctor in ("Sigma", "Sigma+Lambda"):
+        noise["Sigma"] = arr([Sig_build])
+    if fctor in ("Lambda", "Sigma+Lambda"):
+        noise["Lambda"] = arr([lin.finv(Sig_build)])
     if kind == "lrbf":
-        c = ac.LRBFGaussianConditional(M=arr([d["M"]]), b=arr([d["b"]]), mu=arr(d["c"]), length_scale=arr(d["l"]), Sigma=arr([Sig_build]))
+        c = ac.LRBFGaussianConditional(M=arr([d["M"]]), b=arr([d["b"]]), mu=arr(d["c"]), length_scale=arr(d["l"]), **noise)
     elif kind == "lsem":
-        c = ac.LSEMGaussianConditional(M=arr([d["M"]]), b=arr([d["b"]]), W=arr(d["W"]), Sigma=arr([Sig_build]))
+        c = ac.LSEMGaussianConditional(M=arr([d["M"]]), b=arr([d["b"]]), W=arr(d["W"]), **noise)
     else:
         cls = dict(exp=ac.HeteroscedasticExpConditional, coshm1=ac.HeteroscedasticCoshM1Conditional,
                    heaviside=ac.HeteroscedasticHeavisideConditional, relu=ac.HeteroscedasticReLUConditional)[kind]
